@@ -80,3 +80,25 @@ def create_obl(mode, kind=2, ch=2, orate='1.0', timeout=600, tiers=('quick', 'th
                funcs=['soxr.c:soxr_create', 'soxr.c:initialise', 'soxr.c:soxr_set_io_ratio', 'soxr.c:soxr_clear', 'soxr.c:soxr_delete0',
                       'soxr.c:soxr_delete', 'soxr.c:fatal_error', 'soxr.c:soxr_delay', 'soxr.c:runtime_num', 'soxr.c:runtime_flag',
                       'soxr.c:should_use_simd32', 'soxr.c:should_use_simd64'])
+
+
+LSR_OPS = {0: 'src_process', 1: 'src_callback_read', 2: 'null_args', 10: 'float_to_short', 11: 'float_to_int', 12: 'short_to_float', 13: 'int_to_float'}
+
+
+def lsr_obl(op, kind=8, ch=2, ratio='2.0', cap=3, timeout=400):
+    helper = op >= 10
+    defs = ['-DVF_OP=%d' % op, '-DVF_KIND=%d' % kind, '-DVF_CH=%d' % ch, '-DVF_RATIO=%s' % ratio, '-DVF_CAP=%d' % cap,
+            '-DAE_FIXED_BUFS=%d' % (cap + 1), '-DVF_DATAIO_MEMCPY']
+    if not helper:
+        defs.append('-DVF_X87_ABSTRACT')
+    name = 'lsr_%s' % LSR_OPS[op] + ('' if helper else '_k%d_ch%d_r%s' % (kind, ch, ratio.replace('.', 'p')))
+    return Obl(name=name, src='lsr_step.c', extra_srcs=['src/data-io.c', 'x87_glue.c'], defs=defs, ccflags=X87, unwind=cap + 2,
+               unwindset=rint_blocks(1) + ['soxr_output.0:14', 'fixed_alloc.0:%d' % (cap * 16 + 2), 'check_canaries.0:%d' % (cap * 16 + 2),
+                                           'check_canaries.1:8', 'vf_word_memcpy.0:%d' % (cap * 2 + 2)],
+               timeout=timeout,
+               desc='soxr-lsr.c %s' % LSR_OPS[op],
+               bounds=('2 elements, every bit pattern' if helper else 'frames <= %d, src_ratio == %s, %d channels, engine kind %d' % (cap, ratio, ch, kind)),
+               stubs=[X87_STUB] if helper else [AE_STUB, X87_STUB, ENV_STUB],
+               funcs=['soxr-lsr.c:src_process', 'soxr-lsr.c:src_callback_read', 'soxr-lsr.c:src_simple', 'soxr-lsr.c:src_reset',
+                      'soxr-lsr.c:src_float_to_short_array', 'soxr-lsr.c:src_float_to_int_array', 'soxr-lsr.c:src_short_to_float_array',
+                      'soxr-lsr.c:src_int_to_float_array', 'soxr.c:soxr_set_error', 'soxr.c:soxr_process', 'soxr.c:soxr_output'])
